@@ -8,6 +8,7 @@ package main
 
 import (
 	"bufio"
+	"strconv"
 	"encoding/json"
 	"flag"
 	"fmt"
@@ -126,6 +127,18 @@ func main() {
 		os.Exit(2)
 	}
 }
+
+// timeScale stretches the harness's own deadlines (the waits after which a scenario is declared
+// stuck): on a loaded machine the checker re-runs a sequence that did not reproduce with a larger
+// scale before believing it (VERIF_TIME_SCALE).
+var timeScale = func() float64 {
+	if v, err := strconv.ParseFloat(os.Getenv("VERIF_TIME_SCALE"), 64); err == nil && v >= 1 {
+		return v
+	}
+	return 1
+}()
+
+func scaled(d time.Duration) time.Duration { return time.Duration(float64(d) * timeScale) }
 
 func safeRun(c component, args []string) (out string) {
 	defer func() {
